@@ -12,6 +12,7 @@ import (
 	"sort"
 	"strings"
 	"time"
+	"unsafe"
 
 	flyt "github.com/mark3labs/flyt"
 	"github.com/mark3labs/flyt/zzvrt/core"
@@ -498,6 +499,10 @@ func (b *BR) onPost(sameStore bool, items, results []flyt.Result) (flyt.Action, 
 	b.postCalls++
 	b.postItems, b.postResults = items, results
 	core.Logf("post items=%d results=%d", len(items), len(results))
+	for i := range results {
+		// post reads every slot: must be ordered after the worker's write (race detector)
+		core.Read(unsafe.Pointer(&results[i]), fmt.Sprintf("result slot %d read in post", i))
+	}
 	if !sameStore {
 		core.Problem("batch post received a different store")
 	}
